@@ -199,3 +199,463 @@ theorem cli_some (fuel : Nat) (text : String) :
         { stdout := outText st.store, diag := some loc, errKind := some e, exitCode := 255 } := rfl
 
 end Ruschm.FrontSpec
+
+/-! ## the reader consumes tokens: fuel of `Read.all` / `evalText` is never exhausted -/
+
+namespace Ruschm.Read
+open Ruschm
+
+theorem advance_le {s s' : PState} (h : advance s = .ok s') : s'.toks.length ≤ s.toks.length := by
+  unfold advance at h
+  split at h
+  · rename_i t rest ht; cases h; simp [ht]
+  · split at h
+    · cases h
+    · cases h; simp
+
+theorem advance_lt {s s' : PState} (h : advance s = .ok s') (hc : s'.cur.isSome) :
+    s'.toks.length < s.toks.length := by
+  unfold advance at h
+  split at h
+  · rename_i t rest ht; cases h; simp [ht]
+  · split at h
+    · cases h
+    · cases h; simp at hc
+
+theorem bind_ok_inv {ε α β} {x : Except ε α} {f : α → Except ε β} {b : β}
+    (h : (x >>= f) = .ok b) : ∃ a, x = .ok a ∧ f a = .ok b := by
+  cases x with
+  | error e => cases h
+  | ok a => exact ⟨a, rfl, h⟩
+
+theorem advanceUnwrap_le {s s' : PState} {t} (h : advanceUnwrap s = .ok (t, s')) :
+    s'.toks.length ≤ s.toks.length := by
+  unfold advanceUnwrap at h
+  obtain ⟨s1, ha, h⟩ := bind_ok_inv h
+  split at h
+  · cases h; exact advance_le ha
+  · cases h
+
+theorem peek_ok {s : PState} {o} (_h : peek s = .ok o) : True := trivial
+
+structure ConsAt (fuel : Nat) : Prop where
+  cur : ∀ s od s', currentDatum fuel s = .ok (od, s') → s'.toks.length ≤ s.toks.length
+  loop : ∀ s loc acc dot d s', listLoop fuel s loc acc dot = .ok (d, s') → s'.toks.length ≤ s.toks.length
+  rep : ∀ s acc ds s', repeatDatum fuel s acc = .ok (ds, s') → s'.toks.length ≤ s.toks.length
+  dat : ∀ s d s', datum fuel s = .ok (d, s') → s'.toks.length ≤ s.toks.length
+  quo : ∀ s d s', parseQuoted fuel s = .ok (d, s') → s'.toks.length ≤ s.toks.length
+
+theorem consAt_zero : ConsAt 0 := by
+  constructor <;> intros <;> rename_i h <;> simp [currentDatum, listLoop, repeatDatum, datum, parseQuoted] at h
+
+theorem consAt_succ {fuel : Nat} (ih : ConsAt fuel) : ConsAt (fuel + 1) := by
+  constructor
+  · intro s od s' h
+    rw [currentDatum] at h
+    split at h
+    · cases h; exact Nat.le_refl _
+    · dsimp only at h
+      split at h
+      · cases h; exact Nat.le_refl _
+      · cases h; exact Nat.le_refl _
+      · obtain ⟨⟨d, s1⟩, h1, h⟩ := bind_ok_inv h
+        cases h
+        unfold listOrPair at h1
+        exact ih.loop { s with cur := none } _ _ _ _ _ h1
+      · cases h
+      · obtain ⟨⟨xs, s1⟩, h1, h⟩ := bind_ok_inv h
+        cases h
+        exact ih.rep { s with cur := none } _ _ _ h1
+      · obtain ⟨s1, h1, h⟩ := bind_ok_inv h
+        obtain ⟨⟨d, s2⟩, h2, h⟩ := bind_ok_inv h
+        cases h
+        exact Nat.le_trans (ih.quo _ _ _ h2) (advance_le h1)
+      · cases h
+  · intro s loc acc dot d s' h
+    rw [listLoop] at h
+    obtain ⟨⟨t, s1⟩, h1, h⟩ := bind_ok_inv h
+    have l1 := advanceUnwrap_le h1
+    dsimp only at h
+    split at h
+    · split at h
+      · cases h
+      · exact Nat.le_trans (ih.loop _ _ _ _ _ _ h) l1
+    · cases h; exact l1
+    · obtain ⟨⟨od, s2⟩, h2, h⟩ := bind_ok_inv h
+      have l2 := ih.cur _ _ _ h2
+      dsimp only at h
+      split at h
+      · cases h
+      · split at h
+        · split at h
+          · obtain ⟨⟨t2, s3⟩, h3, h⟩ := bind_ok_inv h
+            have l3 := advanceUnwrap_le h3
+            dsimp only at h
+            split at h
+            · cases h; omega
+            · cases h
+          · have := ih.loop _ _ _ _ _ _ h; omega
+        · have := ih.loop _ _ _ _ _ _ h; omega
+  · intro s acc ds s' h
+    rw [repeatDatum] at h
+    obtain ⟨o, h1, h⟩ := bind_ok_inv h
+    split at h
+    · cases h
+    · split at h
+      · obtain ⟨s1, h1, h⟩ := bind_ok_inv h
+        cases h; exact advance_le h1
+      · obtain ⟨s1, h1, h⟩ := bind_ok_inv h
+        obtain ⟨⟨d, s2⟩, h2, h⟩ := bind_ok_inv h
+        have := advance_le h1
+        have := ih.dat _ _ _ h2
+        have := ih.rep _ _ _ _ h
+        omega
+  · intro s d s' h
+    rw [datum] at h
+    dsimp only at h
+    split at h
+    · cases h
+    · split at h
+      · unfold listOrPair at h
+        exact ih.loop _ _ _ _ _ _ h
+      · obtain ⟨⟨xs, s1⟩, h1, h⟩ := bind_ok_inv h
+        cases h
+        exact ih.rep _ _ _ _ h1
+      · cases h; exact Nat.le_refl _
+      · cases h; exact Nat.le_refl _
+      · obtain ⟨s1, h1, h⟩ := bind_ok_inv h
+        exact Nat.le_trans (ih.quo _ _ _ h) (advance_le h1)
+      · cases h
+  · intro s d s' h
+    rw [parseQuoted] at h
+    obtain ⟨⟨d, s2⟩, h2, h⟩ := bind_ok_inv h
+    cases h
+    exact ih.dat _ _ _ h2
+
+theorem consAt : ∀ fuel, ConsAt fuel
+  | 0 => consAt_zero
+  | n + 1 => consAt_succ (consAt n)
+
+theorem nextDatum_le {s s' : PState} {od} (h : nextDatum s = .ok (od, s')) :
+    s'.toks.length ≤ s.toks.length := by
+  unfold nextDatum at h
+  obtain ⟨s1, h1, h⟩ := bind_ok_inv h
+  exact Nat.le_trans ((consAt _).cur _ _ _ h) (advance_le h1)
+
+theorem nextDatum_lt {s s' : PState} {d} (h : nextDatum s = .ok (some d, s')) :
+    s'.toks.length < s.toks.length := by
+  unfold nextDatum at h
+  obtain ⟨s1, h1, h⟩ := bind_ok_inv h
+  have hc : s1.cur.isSome := by
+    cases hcur : s1.cur with
+    | some t => rfl
+    | none =>
+      unfold fuelFor at h
+      rw [show 4 * (s1.toks.length + 2) = (4 * s1.toks.length + 7) + 1 by omega, currentDatum] at h
+      simp [hcur] at h
+  exact Nat.lt_of_le_of_lt ((consAt _).cur _ _ _ h) (advance_lt h1 hc)
+
+
+theorem allAux_acc (n : Nat) : ∀ (s : PState) (acc : List Datum),
+    allAux n s acc = (acc.reverse ++ (allAux n s []).1, (allAux n s []).2) := by
+  induction n with
+  | zero => intro s acc; simp [allAux]
+  | succ n ih =>
+    intro s acc
+    rw [allAux, allAux]
+    split
+    · simp
+    · simp
+    · rw [ih _ (_ :: acc), ih _ [_]]; simp
+
+end Ruschm.Read
+
+namespace Ruschm.FrontSpec
+open Ruschm Ruschm.Interp Ruschm.Front
+
+/-- when all forms succeeded, the reader's error (if any) is the outcome -/
+def finish (r : Except SErr (Option Value) × State) (err : Option SErr) : Except SErr (Option Value) × State :=
+  match r with
+  | (.error e, st') => (.error e, st')
+  | (.ok v, st') =>
+    match err with
+    | some e => (.error e, st')
+    | none => (.ok v, st')
+
+theorem go_step (fuel n : Nat) (s s' : Read.PState) (st : State) (last : Option Value) (d : Datum)
+    (hd : Read.nextDatum s = .ok (some d, s')) :
+    evalText.go fuel (n + 1) s st last =
+      match evalForm fuel st d with
+      | (.error e, st') => (.error e, st')
+      | (.ok v, st') => evalText.go fuel n s' st' v := by
+  rw [evalText.go]
+  simp only [hd, evalForm]
+  generalize Xform.toStatement (Xform.xformFuel d) d st.syn = x
+  obtain ⟨r, syn⟩ := x
+  cases r with
+  | error e => rfl
+  | ok stmt =>
+    dsimp only
+    generalize evalAst fuel _ stmt = y
+    obtain ⟨r, st'⟩ := y
+    cases r <;> rfl
+
+theorem go_eq_fold (fuel : Nat) : ∀ (n : Nat) (s : Read.PState) (st : State) (last : Option Value),
+    s.toks.length < n →
+    evalText.go fuel n s st last =
+      finish (runForms fuel st (Read.allAux n s []).1 last) (Read.allAux n s []).2 := by
+  intro n
+  induction n with
+  | zero => intro s st last h; omega
+  | succ n ih =>
+    intro s st last h
+    cases hd : Read.nextDatum s with
+    | error e =>
+      rw [evalText.go, Read.allAux]; simp only [hd]; rfl
+    | ok p =>
+      obtain ⟨od, s'⟩ := p
+      cases od with
+      | none => rw [evalText.go, Read.allAux]; simp only [hd]; rfl
+      | some d =>
+        have hlt := Read.nextDatum_lt hd
+        rw [go_step fuel n s s' st last d hd, Read.allAux]
+        simp only [hd]
+        rw [Read.allAux_acc]
+        simp only [List.reverse_cons, List.reverse_nil, List.nil_append, List.singleton_append, runForms]
+        generalize evalForm fuel st d = y
+        obtain ⟨r, st'⟩ := y
+        cases r with
+        | error e => rfl
+        | ok v => exact ih s' st' v (by omega)
+
+theorem evalText_eq_runText (fuel : Nat) (st : State) (text : List Char) :
+    evalText fuel st text = runText fuel st text := by
+  unfold evalText runText formsOf Read.all
+  dsimp only
+  rw [go_eq_fold fuel _ _ _ _ (Nat.lt_succ_self _)]
+  unfold finish
+  generalize runForms fuel st _ none = y
+  obtain ⟨r, st'⟩ := y
+  cases r <;> rfl
+
+end Ruschm.FrontSpec
+
+/-! ## output only grows -/
+
+namespace Ruschm.FrontSpec
+open Ruschm Ruschm.Interp Ruschm.Front Ruschm.Eval
+
+theorem OutExt.refl (σ : Store) : OutExt σ σ := ⟨[], rfl⟩
+theorem OutExt.trans {a b c : Store} (h1 : OutExt a b) (h2 : OutExt b c) : OutExt a c := by
+  obtain ⟨m1, e1⟩ := h1
+  obtain ⟨m2, e2⟩ := h2
+  exact ⟨m2 ++ m1, by rw [e2, e1, List.append_assoc]⟩
+theorem OutExt.of_eq {σ σ' : Store} (h : σ'.out = σ.out) : OutExt σ σ' := ⟨[], by simp [h]⟩
+
+theorem outExt_define (σ : Store) (ρ k v) : OutExt σ (σ.define ρ k v) := .of_eq (by simp)
+theorem outExt_newFrame (σ : Store) (p) : OutExt σ (σ.newFrame p).2 := .of_eq rfl
+theorem outExt_allocVec (σ : Store) (m items) : OutExt σ (σ.allocVec m items).2 := .of_eq rfl
+theorem outExt_enter (σ : Store) : OutExt σ (enter σ) := .of_eq rfl
+theorem outExt_leave (σ : Store) : OutExt σ (leave σ) := .of_eq rfl
+theorem outExt_set (σ : Store) (ρ x v) : OutExt σ (σ.set ρ x v).2 := by
+  unfold Store.set
+  repeat' split
+  all_goals first | exact .refl _ | exact .of_eq rfl | (refine .of_eq ?_; simp; done)
+
+theorem outExt_applyPure (σ : Store) (b : Builtin) (args : List Value) : OutExt σ (Prim.applyPure σ b args).2 := by
+  cases b <;> simp only [Prim.applyPure] <;> (repeat' split)
+  all_goals first
+    | exact .of_eq rfl
+    | exact ⟨[_], rfl⟩
+    | (refine .of_eq ?_; simp; done)
+
+theorem outExt_readLiteral (σ : Store) (d : Datum) : OutExt σ (readLiteral σ d).2 := by
+  obtain ⟨cells, h, _⟩ := readLiteral_litStep σ d
+  exact .of_eq (by rw [h])
+theorem outExt_bindFixed (σ : Store) (ρ : Nat) (names : List String) (args : List Value) :
+    OutExt σ (bindFixed σ ρ names args).2 := .of_eq (bindFixed_other names args σ ρ).2.1
+
+structure OutAt (fuel : Nat) : Prop where
+  expr : ∀ σ ρ e, OutExt σ (evalExpr fuel σ ρ e).2
+  args : ∀ σ ρ es, OutExt σ (evalArgs fuel σ ρ es).2
+  proc : ∀ σ p args env, OutExt σ (applyProcedure fuel σ p args env).2
+  loop : ∀ σ p args env, OutExt σ (applyLoop fuel σ p args env).2
+  scheme : ∀ σ lam cenv args, OutExt σ (applyScheme fuel σ lam cenv args).2
+  defs : ∀ σ ρ ds, OutExt σ (evalDefs fuel σ ρ ds).2
+  body : ∀ σ ρ es, OutExt σ (evalBody fuel σ ρ es).2
+  tail : ∀ σ ρ e, OutExt σ (evalTail fuel σ ρ e).2
+
+section rules
+variable {fuel : Nat} (ih : OutAt fuel) {σ₀ σ σ' : Store}
+include ih
+theorem OutAt.expr_eq {ρ e r} (h : evalExpr fuel σ ρ e = (r, σ')) (g : OutExt σ₀ σ) : OutExt σ₀ σ' := by
+  have := ih.expr σ ρ e; rw [h] at this; exact g.trans this
+theorem OutAt.args_eq {ρ e r} (h : evalArgs fuel σ ρ e = (r, σ')) (g : OutExt σ₀ σ) : OutExt σ₀ σ' := by
+  have := ih.args σ ρ e; rw [h] at this; exact g.trans this
+theorem OutAt.loop_eq {p a env r} (h : applyLoop fuel σ p a env = (r, σ')) (g : OutExt σ₀ σ) : OutExt σ₀ σ' := by
+  have := ih.loop σ p a env; rw [h] at this; exact g.trans this
+theorem OutAt.scheme_eq {l c a r} (h : applyScheme fuel σ l c a = (r, σ')) (g : OutExt σ₀ σ) : OutExt σ₀ σ' := by
+  have := ih.scheme σ l c a; rw [h] at this; exact g.trans this
+theorem OutAt.defs_eq {ρ ds r} (h : evalDefs fuel σ ρ ds = (r, σ')) (g : OutExt σ₀ σ) : OutExt σ₀ σ' := by
+  have := ih.defs σ ρ ds; rw [h] at this; exact g.trans this
+theorem OutAt.expr_snd {ρ e} (g : OutExt σ₀ σ) : OutExt σ₀ (evalExpr fuel σ ρ e).2 := g.trans (ih.expr ..)
+theorem OutAt.args_snd {ρ e} (g : OutExt σ₀ σ) : OutExt σ₀ (evalArgs fuel σ ρ e).2 := g.trans (ih.args ..)
+theorem OutAt.proc_snd {p a env} (g : OutExt σ₀ σ) : OutExt σ₀ (applyProcedure fuel σ p a env).2 := g.trans (ih.proc ..)
+theorem OutAt.loop_snd {p a env} (g : OutExt σ₀ σ) : OutExt σ₀ (applyLoop fuel σ p a env).2 := g.trans (ih.loop ..)
+theorem OutAt.defs_snd {ρ ds} (g : OutExt σ₀ σ) : OutExt σ₀ (evalDefs fuel σ ρ ds).2 := g.trans (ih.defs ..)
+theorem OutAt.body_snd {ρ es} (g : OutExt σ₀ σ) : OutExt σ₀ (evalBody fuel σ ρ es).2 := g.trans (ih.body ..)
+theorem OutAt.tail_snd {ρ e} (g : OutExt σ₀ σ) : OutExt σ₀ (evalTail fuel σ ρ e).2 := g.trans (ih.tail ..)
+end rules
+
+section datarules
+variable {σ₀ σ σ' : Store}
+theorem o_set_eq {ρ x v b} (h : σ.set ρ x v = (b, σ')) (g : OutExt σ₀ σ) : OutExt σ₀ σ' := by
+  have := outExt_set σ ρ x v; rw [h] at this; exact g.trans this
+theorem o_define {ρ x v} (g : OutExt σ₀ σ) : OutExt σ₀ (σ.define ρ x v) := g.trans (outExt_define ..)
+theorem o_enter (g : OutExt σ₀ σ) : OutExt σ₀ (enter σ) := g.trans (outExt_enter σ)
+theorem o_leave (g : OutExt σ₀ σ) : OutExt σ₀ (leave σ) := g.trans (outExt_leave σ)
+theorem o_prim {b a} (g : OutExt σ₀ σ) : OutExt σ₀ (Prim.applyPure σ b a).2 := g.trans (outExt_applyPure ..)
+theorem o_lit {d} (g : OutExt σ₀ σ) : OutExt σ₀ (readLiteral σ d).2 := g.trans (outExt_readLiteral ..)
+theorem o_bind_eq {ρ n a r} (h : bindFixed σ ρ n a = (r, σ')) (g : OutExt σ₀ σ) : OutExt σ₀ σ' := by
+  have := outExt_bindFixed σ ρ n a; rw [h] at this; exact g.trans this
+theorem o_newFrame {p} (g : OutExt σ₀ σ) : OutExt σ₀ (σ.newFrame p).2 := g.trans (outExt_newFrame ..)
+end datarules
+
+macro "out_chain" ih:term : tactic =>
+  `(tactic| solve_by_elim (maxDepth := 12) [OutExt.refl, OutAt.expr_eq $ih, OutAt.args_eq $ih, OutAt.loop_eq $ih,
+      OutAt.scheme_eq $ih, OutAt.defs_eq $ih, OutAt.expr_snd $ih, OutAt.args_snd $ih,
+      OutAt.proc_snd $ih, OutAt.loop_snd $ih, OutAt.defs_snd $ih, OutAt.body_snd $ih,
+      OutAt.tail_snd $ih, o_set_eq, o_define, o_enter, o_leave, o_prim, o_lit, o_bind_eq, o_newFrame])
+
+theorem outAt_zero : OutAt 0 := by
+  constructor <;> intros <;> simp only [evalExpr, evalArgs, applyProcedure, applyLoop, applyScheme, evalDefs, evalBody, evalTail] <;> exact OutExt.refl _
+
+section succ
+variable {fuel : Nat} (ih : OutAt fuel)
+include ih
+theorem outAt_expr (σ ρ e) : OutExt σ (evalExpr (fuel + 1) σ ρ e).2 := by
+  cases e <;> simp only [evalExpr]
+  all_goals (repeat' split)
+  all_goals (try dsimp only)
+  all_goals out_chain ih
+theorem outAt_args (σ ρ es) : OutExt σ (evalArgs (fuel + 1) σ ρ es).2 := by
+  cases es <;> simp only [evalArgs]
+  all_goals (repeat' split)
+  all_goals (try dsimp only)
+  all_goals out_chain ih
+theorem outAt_proc (σ p args env) : OutExt σ (applyProcedure (fuel + 1) σ p args env).2 := by
+  rw [applyProcedure]
+  split
+  dsimp only
+  out_chain ih
+theorem outAt_loop (σ p args env) : OutExt σ (applyLoop (fuel + 1) σ p args env).2 := by
+  rw [applyLoop.eq_def]
+  dsimp only
+  all_goals (repeat' split)
+  all_goals (try dsimp only)
+  all_goals out_chain ih
+theorem outAt_scheme (σ lam cenv args) : OutExt σ (applyScheme (fuel + 1) σ lam cenv args).2 := by
+  simp only [applyScheme]
+  cases lam.formals.rest <;> dsimp only
+  all_goals (repeat' split)
+  all_goals (try dsimp only)
+  all_goals out_chain ih
+theorem outAt_defs (σ ρ ds) : OutExt σ (evalDefs (fuel + 1) σ ρ ds).2 := by
+  rcases ds with _ | ⟨⟨name, e, l⟩, ds⟩ <;> simp only [evalDefs]
+  all_goals (repeat' split)
+  all_goals (try dsimp only)
+  all_goals out_chain ih
+theorem outAt_body (σ ρ es) : OutExt σ (evalBody (fuel + 1) σ ρ es).2 := by
+  rcases es with _ | ⟨e, _ | ⟨e', es⟩⟩ <;> simp only [evalBody]
+  all_goals (repeat' split)
+  all_goals (try dsimp only)
+  all_goals out_chain ih
+theorem outAt_tail (σ ρ e) : OutExt σ (evalTail (fuel + 1) σ ρ e).2 := by
+  cases e <;> simp only [evalTail]
+  all_goals (repeat' split)
+  all_goals (try dsimp only)
+  all_goals out_chain ih
+end succ
+
+theorem outAt_succ {fuel : Nat} (ih : OutAt fuel) : OutAt (fuel + 1) :=
+  ⟨outAt_expr ih, outAt_args ih, outAt_proc ih, outAt_loop ih, outAt_scheme ih, outAt_defs ih,
+    outAt_body ih, outAt_tail ih⟩
+
+theorem outAt : ∀ fuel, OutAt fuel
+  | 0 => outAt_zero
+  | fuel + 1 => outAt_succ (outAt fuel)
+
+theorem storeRel_outExt : StoreRel OutExt where
+  refl := OutExt.refl
+  trans := OutExt.trans
+  expr := fun {fuel σ ρ e r σ'} h => by
+    have := (outAt fuel).expr σ ρ e; rw [h] at this; exact this
+  define := outExt_define
+  newFrame := outExt_newFrame
+
+
+/-- what a whole form preserves: everything of the interpreter state except the store, the syntax
+scopes (changed by the transformer only) and the import-phase flag -/
+theorem evalAst_out {fuel st s r st'} (h : evalAst fuel st s = (r, st')) :
+    OutExt st.store st'.store ∧ st'.syn = st.syn ∧ st'.env = st.env := by
+  obtain ⟨st1, h1, i⟩ := evalAst_inv storeRel_outExt h
+  rcases h1 with rfl | rfl
+  · exact ⟨i.store, i.syn, i.env⟩
+  · exact ⟨i.store, i.syn, i.env⟩
+
+theorem evalForm_out (fuel : Nat) (st : State) (d : Datum) :
+    OutExt st.store (evalForm fuel st d).2.store ∧ (evalForm fuel st d).2.env = st.env := by
+  unfold evalForm
+  split
+  · exact ⟨.refl _, rfl⟩
+  · rename_i stmt syn _
+    obtain ⟨a, _, c⟩ := evalAst_out (fuel := fuel) (st := { st with syn := syn }) (s := stmt) rfl
+    exact ⟨a, c⟩
+
+theorem runForms_out (fuel : Nat) (ds : List Datum) : ∀ (st : State) (last : Option Value),
+    OutExt st.store (runForms fuel st ds last).2.store := by
+  induction ds with
+  | nil => intro st last; exact .refl _
+  | cons d ds ih =>
+    intro st last
+    rw [runForms]
+    have h := (evalForm_out fuel st d).1
+    generalize evalForm fuel st d = y at h
+    obtain ⟨r, st'⟩ := y
+    cases r with
+    | error e => exact h
+    | ok v => exact h.trans (ih st' v)
+
+theorem runForms_append (fuel : Nat) (pre rest : List Datum) : ∀ (st : State) (last : Option Value),
+    runForms fuel st (pre ++ rest) last =
+      match runForms fuel st pre last with
+      | (.error e, st') => (.error e, st')
+      | (.ok v, st') => runForms fuel st' rest v := by
+  induction pre with
+  | nil => intro st last; rfl
+  | cons d ds ih =>
+    intro st last
+    simp only [List.cons_append, runForms]
+    generalize evalForm fuel st d = y
+    obtain ⟨r, st'⟩ := y
+    cases r with
+    | error e => rfl
+    | ok v => exact ih st' v
+
+theorem outText_ext {σ σ' : Store} {more : List String} (h : σ'.out = more ++ σ.out) :
+    outText σ' = outText σ ++ String.join more.reverse := by
+  unfold outText
+  rw [h, List.reverse_append, String.join_append]
+
+/-! ## a concrete text -/
+
+theorem lex_rparen : Lex.all [')'] = ([⟨.rparen, some (1, 2)⟩], none) := by
+  simp [Lex.all, Lex.allAux, Lex.next, Lex.skipAtmosphere, Lex.token, Lex.isWs, Lex.adv]
+
+theorem evalText_rparen (fuel : Nat) (st : State) :
+    evalText fuel st [')'] = (.error (.syntax, some (1, 2)), st) := by
+  unfold evalText
+  simp only [Read.ofText, lex_rparen]
+  simp [evalText.go, Read.nextDatum, Read.advance, Read.currentDatum, Read.fuelFor, bind, Except.bind]
+
+end Ruschm.FrontSpec
